@@ -38,12 +38,18 @@ Before(at, T) == IF Bug = "le" THEN at <= T ELSE at < T
 
 IInit ==
     /\ now = 0 /\ cur = 1 /\ content = (1 :> <<CHOOSE l \in Labels : TRUE, FALSE>>)
-    /\ loaded = (CHOOSE l \in Labels : TRUE)
+    /\ loaded = {CHOOSE l \in Labels : TRUE}
     /\ retained = {1} /\ hyp = <<>> /\ last = [ev |-> "init", ok |-> TRUE]
     /\ pins = <<>> /\ txnQ = <<>> /\ verQ = <<>> /\ txnNext = -1 /\ verNext = -1
     /\ lk = [x \in Txns |-> [st |-> "idle", v |-> 0, cs |-> {}]]
     /\ up = [st |-> "idle", prev |-> 0]
     /\ len = 0 /\ nupd = 0
+
+\* content the implementation installs (no failed reloads in the model: one loaded label)
+IContent(op, L) ==
+    CASE op \in {"apply", "reload"} -> <<L, FALSE>>
+      [] op = "revdf" -> <<CHOOSE l \in loaded : TRUE, TRUE>>
+      [] op = "revll" -> <<CHOOSE l \in loaded : TRUE, FALSE>>
 
 L1(x) ==
     /\ lk[x].st = "idle"
@@ -71,7 +77,7 @@ L3(x) ==
 
 U1(op, L) ==
     /\ up.st = "idle" /\ nupd < MaxUpd
-    /\ Update(op, L, TRUE, cur + 1, Expected(op, L))
+    /\ Update(op, L, TRUE, cur + 1, IContent(op, L))
     /\ retained' = IF Bug = "dropprev" THEN (retained \cup {cur + 1}) \ {cur} ELSE retained \cup {cur + 1}
     /\ up' = [st |-> "gap", prev |-> cur]
     /\ len' = len + 1 /\ nupd' = nupd + 1
